@@ -124,7 +124,8 @@ func vh_C13_manager_save() {
 			}
 			// opacity: neither the cookie nor the stored value contains the tokens in clear
 			for _, secret := range []string{s.AccessToken, s.IDToken, s.RefreshToken, s.Email, s.User} {
-				verifOpaque("C02.manager.opaque-stored-value", string(kv.savedVal), secret)
+				// what a reader of the store sees: the entry's key together with its value
+				verifOpaque("C02.manager.opaque-stored-value", kv.savedKey+"\x00"+string(kv.savedVal), secret)
 				verifOpaque("C02.manager.opaque-cookie", c.Value, secret)
 			}
 		}
